@@ -26,10 +26,12 @@ def _dag(rng, n, shape):
         for i in range(1, n):
             deps[names[i]] = [names[0]]
     elif shape == "fanfail" and n >= 5:
-        # X (fails) and S (slow) block k flagged jobs; a tail job behind them waits for S only
-        for i in range(2, n - 1):
+        # X (fails) and S (slow) block k flagged jobs (k = 2 or 3); the other jobs (>= 1) wait for S only
+        k = min(rng.choice([2, 2, 3]), n - 3)
+        for i in range(2, 2 + k):
             deps[names[i]] = [names[0], names[1]]
-        deps[names[n - 1]] = [names[1]]
+        for i in range(2 + k, n):
+            deps[names[i]] = [names[1]]
     elif shape == "tri":
         # triples A <- B, {A, B} <- C: a job with two blockers one of which depends on the other
         for i in range(0, n - 2, 3):
@@ -166,7 +168,7 @@ def write_config(scen, root, registry):
         cfg.add_job(
             GenericCommandParameters(
                 command=j.get("command") or f"probe {j['name']}",
-                name=j["name"],
+                name=None if j.get("auto_name") else j["name"],  # unnamed: JADE names the job str(job_id), ids count from 1
                 blocked_by=bl,
                 cancel_on_blocking_job_failure=j["flag"],
                 estimated_run_minutes=j["est"],
